@@ -209,13 +209,18 @@ class PITConv1d(nn.Conv1d, PITModule):
             )
             # If explicit padding nn.Module exist is simply substituted with new_pad
             # else a new node is created and new_pad inserted
-            for inp in n.args:
+            # A layer invoked more than once in the forward pass is exported only once (at the
+            # first visited call site), so the padding of all its call sites is adjusted here
+            sites = [s for s in mod.graph.nodes
+                     if s.op == 'call_module' and s.target == n.target]
+            found = False
+            for inp in [i for s in sites for i in s.args]:
                 inp = cast(fx.Node, inp)
                 if inp.op == 'call_module':
                     if isinstance(mod.get_submodule(str(inp.target)), nn.ConstantPad1d):
                         mod.add_submodule(str(inp.target), new_pad)
-                        break  # Found it, we can exit and go on
-            else:  # Did not find anything
+                        found = True
+            if not found:  # Did not find anything
                 mod.add_submodule(str(n.target) + "_pad", new_pad)
                 with mod.graph.inserting_before(n):
                     new_node = mod.graph.call_module(
